@@ -470,8 +470,16 @@ class Gen:
             ctx = {}
             factors = []
             gens = []
+            ladder = set()
             for i, (n, kd) in enumerate(zip(tg, kinds)):
-                if kd == "F":
+                if kd == "F" and self.p(self.opts.get("ladder_expr", 0.0)):
+                    # a quadrature a + a^dag instead of the number operator: the matrix then depends on the cutoff it
+                    # is built for in every entry (judged at the dimension list the library hands to the context)
+                    ladder.add(i)
+                    ctx[f"a{i}"] = {"f": "destroy", "i": i}
+                    ctx[f"ad{i}"] = {"f": "create", "i": i}
+                    ctx[f"i{i}"] = {"f": "eye", "i": i}
+                elif kd == "F":
                     ctx[f"g{i}"] = {"f": "number", "i": i}
                     ctx[f"i{i}"] = {"f": "eye", "i": i}
                 else:
@@ -480,17 +488,20 @@ class Gen:
                     ctx[f"g{i}"] = {"f": "const", "m": c2j((A + A.conj().T) / 2)}
                     ctx[f"i{i}"] = {"f": "const", "m": c2j(np.eye(d))}
             # generator: sum over pairs of g_i x g_j (x identities) -> entangling unitary exp(i G)
+            gname = lambda m: ["add", f"a{m}", f"ad{m}"] if m in ladder else f"g{m}"  # noqa: E731
             terms = []
             for i in range(k):
                 for j in range(i + 1, k):
-                    terms.append(["kron"] + [f"g{m}" if m in (i, j) else f"i{m}" for m in range(k)])
-            terms.append(["kron"] + [f"g{m}" if m == 0 else f"i{m}" for m in range(k)])
+                    terms.append(["kron"] + [gname(m) if m in (i, j) else f"i{m}" for m in range(k)])
+            terms.append(["kron"] + [gname(m) if m == 0 else f"i{m}" for m in range(k)])
             G = ["add"] + terms if len(terms) > 1 else terms[0]
             # (half of the time a round coefficient: the expression text then coincides with that of other operations
             # of the same shape whose context binds different matrices)
             coef = float(self.ch([0.5, 1.0])) if self.p(0.5) else float(r.uniform(0.2, 1.5))
             spec["expr"] = ["expm", ["s_mult", {"num": [0.0, coef]}, G]]
             spec["context"] = ctx
+            if ladder:
+                spec["ladder"] = True
         via = {"via": "ce", "ce": self.ch(v["handles"][g][:3])}
         st = {"k": "apply", "op": spec, "targets": tg}
         st.update(via)
